@@ -1,5 +1,834 @@
 import SemVerif.Spec.Preds
 import SemVerif.Inventory
-/-! # Property C18 — theorems (under construction) -/
+import SemVerif.Lemmas.StmtSteps
+import SemVerif.Lemmas.Misc
+import SemVerif.Lemmas.Frames
+/-!
+# Property C18 — the block-state tree mirrors the source nesting
+
+For every program and every function:
+* `C18_subseq`: every block's own stack is an order-preserving subsequence of its parent's,
+  recursively (invariant over primitive steps: every push goes to the current block and all its
+  ancestors, a finished block is appended to its parent, the only later write goes through
+  `pushVia` to that child and all live blocks);
+* `C18_shape`: the root block has one child per if-body, else-body, else-if-body and loop-body of
+  the function body, in source order, recursively (mutual structural induction over the control
+  constructs, on the stack of per-block child-shape lists);
+* parent links: the model's tree has them by construction; the harness checks `Rc::ptr_eq` on the
+  implementation and the dump carries the verdict.
+The value-table half (accepted well-formed programs) is decided by the correspondence run only.
+-/
 namespace SemVerif
+
+theorem isSubseq_iff (a b : List Instr) : isSubseq a b = true ↔ a.Sublist b := by
+  induction b generalizing a with
+  | nil =>
+    cases a with
+    | nil => simp [isSubseq]
+    | cons x xs => simp [isSubseq]
+  | cons y ys ih =>
+    cases a with
+    | nil => simp [isSubseq]
+    | cons x xs =>
+      unfold isSubseq
+      by_cases h : x = y
+      · subst h
+        simp only [if_true]
+        rw [ih]
+        constructor
+        · intro hs; exact hs.cons₂ x
+        · intro hs; exact (List.cons_sublist_cons.mp hs)
+      · simp only [h, if_false]
+        rw [ih]
+        constructor
+        · intro hs; exact hs.cons y
+        · intro hs
+          cases hs with
+          | cons _ h' => exact h'
+          | cons_cons _ h' => exact absurd rfl h
+
+theorem isSubseq_push {a b : List Instr} (i : Instr) (h : isSubseq a b = true) : isSubseq (a ++ [i]) (b ++ [i]) = true := by
+  rw [isSubseq_iff] at *; exact List.Sublist.append h (List.Sublist.refl _)
+
+theorem isSubseq_right {a b : List Instr} (i : Instr) (h : isSubseq a b = true) : isSubseq a (b ++ [i]) = true := by
+  rw [isSubseq_iff] at *; exact h.trans (List.sublist_append_left _ _)
+
+theorem isSubseq_nil (b : List Instr) : isSubseq [] b = true := by cases b <;> rfl
+
+theorem subseqOkL_right (ctx : List Instr) (i : Instr) : ∀ (cs : List Block),
+    Block.subseqOkL ctx cs = true → Block.subseqOkL (ctx ++ [i]) cs = true
+  | [], _ => by unfold Block.subseqOkL; rfl
+  | c :: cs, h => by
+    unfold Block.subseqOkL at h ⊢
+    simp only [Bool.and_eq_true] at h ⊢
+    exact ⟨⟨isSubseq_right i h.1.1, h.1.2⟩, subseqOkL_right ctx i cs h.2⟩
+
+theorem subseqOk_def (b : Block) : b.subseqOk = Block.subseqOkL b.context b.children := by
+  cases b; unfold Block.subseqOk; rfl
+
+/-- a block with one more instruction at the end of its stack -/
+theorem subseqOk_push (b : Block) (i : Instr) (h : b.subseqOk = true) :
+    ({ b with context := b.context ++ [i] } : Block).subseqOk = true := by
+  rw [subseqOk_def] at h ⊢
+  exact subseqOkL_right _ _ _ h
+
+/-- live chain: every live block's stack is a subsequence of the next outer one's -/
+def chainOk : List Block → Bool
+  | [] => true
+  | [_] => true
+  | a :: b :: rest => isSubseq a.context b.context && chainOk (b :: rest)
+
+structure SubInv (s : St) : Prop where
+  trees : ∀ b ∈ s.frames, b.subseqOk = true
+  chain : chainOk s.frames = true
+
+theorem subInv_init : SubInv St.init := by
+  refine ⟨?_, ?_⟩
+  · intro b hb; simp [St.frames, St.init] at hb; subst hb; rfl
+  · rfl
+
+theorem chainOk_map_push (i : Instr) : ∀ (l : List Block), chainOk l = true →
+    chainOk (l.map fun b => { b with context := b.context ++ [i] }) = true
+  | [], _ => rfl
+  | [_], _ => rfl
+  | a :: b :: rest, h => by
+    unfold chainOk at h
+    simp only [Bool.and_eq_true] at h
+    simp only [List.map_cons]
+    unfold chainOk
+    simp only [Bool.and_eq_true]
+    exact ⟨isSubseq_push i h.1, by have := chainOk_map_push i (b :: rest) h.2; simpa using this⟩
+
+theorem subInv_push {s : St} (h : SubInv s) (i : Instr) : SubInv (s.push i) := by
+  refine ⟨?_, ?_⟩
+  · intro b hb
+    unfold St.push at hb
+    rw [frames_mapFrames] at hb
+    simp at hb
+    obtain ⟨b', hb', rfl⟩ := hb
+    exact subseqOk_push b' i (h.trees b' hb')
+  · unfold St.push; rw [frames_mapFrames]; exact chainOk_map_push i _ h.chain
+
+/-- maps that keep stack and children keep the invariant -/
+theorem subseqOk_congr (b b' : Block) (h1 : b'.context = b.context) (h2 : b'.children = b.children) :
+    b'.subseqOk = b.subseqOk := by
+  rw [subseqOk_def, subseqOk_def, h1, h2]
+
+theorem chainOk_congr : ∀ (l l' : List Block), l'.map (·.context) = l.map (·.context) → chainOk l' = chainOk l
+  | [], [], _ => rfl
+  | [], _ :: _, h => by simp at h
+  | _ :: _, [], h => by simp at h
+  | [a], [a'], _ => rfl
+  | [a], _ :: _ :: _, h => by simp at h
+  | _ :: _ :: _, [a'], h => by simp at h
+  | a :: b :: rest, a' :: b' :: rest', h => by
+    simp only [List.map_cons, List.cons.injEq] at h
+    unfold chainOk
+    rw [h.1, h.2.1, chainOk_congr (b :: rest) (b' :: rest') (by simp [h.2.1, h.2.2])]
+
+theorem subInv_mapFrames {s : St} (f : Block → Block) (hf : ∀ b, (f b).context = b.context ∧ (f b).children = b.children)
+    (h : SubInv s) : SubInv (s.mapFrames f) := by
+  refine ⟨?_, ?_⟩
+  · intro b hb
+    rw [frames_mapFrames] at hb
+    simp at hb
+    obtain ⟨b', hb', rfl⟩ := hb
+    rw [subseqOk_congr b' (f b') (hf b').1 (hf b').2]; exact h.trees b' hb'
+  · rw [frames_mapFrames, chainOk_congr s.frames (s.frames.map f) (by simp [List.map_map, Function.comp_def, hf])]
+    exact h.chain
+
+theorem subInv_same {s s' : St} (hf : s'.frames = s.frames) (h : SubInv s) : SubInv s' :=
+  ⟨by rw [hf]; exact h.trees, by rw [hf]; exact h.chain⟩
+
+theorem subInv_mapCur {s : St} (f : Block → Block) (hf : ∀ b, (f b).context = b.context ∧ (f b).children = b.children)
+    (h : SubInv s) : SubInv (s.mapCur f) := by
+  refine ⟨?_, ?_⟩
+  · intro b hb
+    rw [frames_mapCur] at hb
+    cases hfr : s.frames with
+    | nil => rw [hfr] at hb; cases hb
+    | cons b0 rest =>
+      rw [hfr] at hb; simp at hb
+      rcases hb with rfl | hb
+      · rw [subseqOk_congr b0 (f b0) (hf b0).1 (hf b0).2]; exact h.trees b0 (by simp [hfr])
+      · exact h.trees b (by simp [hfr, hb])
+  · rw [frames_mapCur]
+    cases hfr : s.frames with
+    | nil => rfl
+    | cons b0 rest =>
+      dsimp only
+      rw [chainOk_congr (b0 :: rest) (f b0 :: rest) (by simp [(hf b0).1])]
+      rw [← hfr]; exact h.chain
+
+/-- the invariant only looks at the stacks and children of the live blocks -/
+theorem subInv_of_cc {s s' : St} (hcc : s'.frames.map (fun b => (b.context, b.children)) = s.frames.map (fun b => (b.context, b.children)))
+    (h : SubInv s) : SubInv s' := by
+  have hlen : s'.frames.length = s.frames.length := by simpa using congrArg List.length hcc
+  refine ⟨?_, ?_⟩
+  · intro b hb
+    obtain ⟨k, hk, rfl⟩ := List.getElem_of_mem hb
+    have hk' : k < s.frames.length := by omega
+    have := congrArg (fun l => l[k]?) hcc
+    simp only [List.getElem?_map, List.getElem?_eq_getElem hk, List.getElem?_eq_getElem hk', Option.map_some, Option.some.injEq, Prod.mk.injEq] at this
+    rw [subseqOk_congr (s.frames[k]) (s'.frames[k]) this.1 this.2]
+    exact h.trees _ (List.getElem_mem hk')
+  · rw [chainOk_congr s.frames s'.frames (by
+      have := congrArg (List.map Prod.fst) hcc
+      simpa [List.map_map, Function.comp_def] using this)]
+    exact h.chain
+
+theorem subInv_estep {s s' : St} (h : SubInv s) (st : EStep s s') : SubInv s' := by
+  cases st with
+  | incReg => exact subInv_of_cc (by unfold St.incReg; rw [frames_mapFrames]; simp [List.map_map, Function.comp_def]) h
+  | emit i _ _ _ _ => exact subInv_push h i
+  | incEmit i _ _ _ _ =>
+    exact subInv_push (subInv_of_cc (by unfold St.incReg; rw [frames_mapFrames]; simp [List.map_map, Function.comp_def]) h) i
+  | addErr k v l o => exact subInv_of_cc (s := s) rfl h
+  | declare n v i _ _ _ _ _ =>
+    apply subInv_push
+    apply subInv_of_cc _ h
+    unfold St.registerInner St.insertValue
+    rw [frames_mapFrames, frames_mapCur]
+    cases hfr : s.frames with
+    | nil => rfl
+    | cons b0 rest => simp [List.map_map, Function.comp_def]
+
+theorem subseqOkL_append (ctx : List Instr) (b : Block) (hb1 : isSubseq b.context ctx = true) (hb2 : b.subseqOk = true) :
+    ∀ (cs : List Block), Block.subseqOkL ctx cs = true → Block.subseqOkL ctx (cs ++ [b]) = true
+  | [], _ => by
+    simp only [List.nil_append]
+    unfold Block.subseqOkL
+    simp only [Bool.and_eq_true]
+    exact ⟨⟨hb1, hb2⟩, by unfold Block.subseqOkL; rfl⟩
+  | c :: cs, h => by
+    simp only [List.cons_append]
+    unfold Block.subseqOkL at h ⊢
+    simp only [Bool.and_eq_true] at h ⊢
+    exact ⟨h.1, subseqOkL_append ctx b hb1 hb2 cs h.2⟩
+
+theorem subseqOkL_via (ctx : List Instr) (i : Instr) : ∀ (k : Nat) (cs : List Block), Block.subseqOkL ctx cs = true →
+    Block.subseqOkL (ctx ++ [i]) (modifyNth (fun c => { c with context := c.context ++ [i] }) k cs) = true
+  | _, [], _ => by unfold modifyNth Block.subseqOkL; rfl
+  | 0, c :: cs, h => by
+    unfold modifyNth
+    unfold Block.subseqOkL at h ⊢
+    simp only [Bool.and_eq_true] at h ⊢
+    exact ⟨⟨isSubseq_push i h.1.1, subseqOk_push c i h.1.2⟩, subseqOkL_right ctx i cs h.2⟩
+  | k + 1, c :: cs, h => by
+    unfold modifyNth
+    unfold Block.subseqOkL at h ⊢
+    simp only [Bool.and_eq_true] at h ⊢
+    exact ⟨⟨isSubseq_right i h.1.1, h.1.2⟩, subseqOkL_via ctx i k cs h.2⟩
+
+theorem subInv_step {s s' : St} (h : SubInv s) (st : Step s s') : SubInv s' := by
+  cases st with
+  | e he => exact subInv_estep h he
+  | enter =>
+    refine ⟨?_, ?_⟩
+    · intro b hb
+      rw [frames_enter] at hb
+      simp at hb
+      rcases hb with rfl | hb
+      · rfl
+      · exact h.trees b (by simpa [St.frames] using hb)
+    · rw [frames_enter]
+      cases hfr : s.frames with
+      | nil => rfl
+      | cons b0 rest =>
+        unfold chainOk
+        simp only [Bool.and_eq_true]
+        exact ⟨isSubseq_nil _, by rw [← hfr]; exact h.chain⟩
+  | leave =>
+    unfold St.leave
+    cases hi : s.inner with
+    | nil => simpa [hi] using h
+    | cons b rest =>
+      have hb : b.subseqOk = true := h.trees b (by simp [St.frames, hi])
+      have hch := h.chain
+      simp only [St.frames, hi] at hch
+      cases rest with
+      | nil =>
+        simp only [List.cons_append, List.nil_append] at hch
+        unfold chainOk at hch
+        simp only [Bool.and_eq_true] at hch
+        refine ⟨?_, rfl⟩
+        intro x hx
+        simp [St.frames] at hx
+        subst hx
+        have hr : s.root.subseqOk = true := h.trees s.root (by simp [St.frames])
+        rw [subseqOk_def] at hr ⊢
+        show Block.subseqOkL s.root.context (s.root.children ++ [b]) = true
+        exact subseqOkL_append _ b hch.1 hb _ hr
+      | cons p rest' =>
+        simp only [List.cons_append] at hch
+        unfold chainOk at hch
+        simp only [Bool.and_eq_true] at hch
+        have hp : p.subseqOk = true := h.trees p (by simp [St.frames, hi])
+        refine ⟨?_, ?_⟩
+        · intro x hx
+          simp [St.frames] at hx
+          rcases hx with rfl | hx | rfl
+          · rw [subseqOk_def] at hp ⊢
+            exact subseqOkL_append _ b hch.1 hb _ hp
+          · exact h.trees x (by simp [St.frames, hi, hx])
+          · exact h.trees s.root (by simp [St.frames])
+        · show chainOk (({ p with children := p.children ++ [b] } :: rest') ++ [s.root]) = true
+          rw [chainOk_congr ((p :: rest') ++ [s.root]) (({ p with children := p.children ++ [b] } :: rest') ++ [s.root]) (by simp)]
+          exact hch.2
+  | regLabel l _ => exact subInv_of_cc (by rw [frames_mapFrames]; simp [List.map_map, Function.comp_def]) h
+  | ctl i _ _ _ => exact subInv_push h i
+  | ctlVia k i _ _ _ =>
+    unfold St.pushVia St.push
+    refine ⟨?_, ?_⟩
+    · intro x hx
+      rw [frames_mapFrames, frames_mapCur] at hx
+      cases hfr : s.frames with
+      | nil => exact absurd hfr (frames_ne_nil s)
+      | cons b0 rest =>
+        rw [hfr] at hx
+        simp at hx
+        rcases hx with rfl | ⟨b', hb', rfl⟩
+        · have h0 := h.trees b0 (by simp [hfr])
+          rw [subseqOk_def] at h0 ⊢
+          exact subseqOkL_via _ i k _ h0
+        · exact subseqOk_push b' i (h.trees b' (by simp [hfr, hb']))
+    · rw [frames_mapFrames, frames_mapCur]
+      cases hfr : s.frames with
+      | nil => rfl
+      | cons b0 rest =>
+        dsimp only
+        have := chainOk_map_push i (b0 :: rest) (by rw [← hfr]; exact h.chain)
+        rw [chainOk_congr ((b0 :: rest).map fun b => { b with context := b.context ++ [i] }) _
+          (by simp [List.map_map, Function.comp_def])]
+        exact this
+  | setReturn => exact subInv_of_cc (by unfold St.setReturn; rw [frames_mapFrames]; simp [List.map_map, Function.comp_def]) h
+  | setPanic site => exact subInv_of_cc (by unfold St.setPanic; cases s.panic <;> rfl) h
+
+theorem subInv_steps {s s' : St} (h : SubInv s) (st : Steps s s') : SubInv s' := by
+  induction st with
+  | refl => exact h
+  | tail _ st ih => exact subInv_step ih st
+
+/-- C18 (subsequence) for one function -/
+theorem C18_subseq_function (g : Globals) (f : FnDecl) : (functionBody g f).root.subseqOk = true :=
+  (subInv_steps subInv_init (steps_functionBody g f)).trees _ (by simp [St.frames])
+
+
+/-! ### Shape of the block tree -/
+
+mutual
+/-- drop the `lets` annotation -/
+def Shape.erase : Shape → Shape
+  | .node _ cs => .node [] (Shape.eraseL cs)
+def Shape.eraseL : List Shape → List Shape
+  | [] => []
+  | x :: xs => Shape.erase x :: Shape.eraseL xs
+end
+
+theorem eraseL_append : ∀ (a b : List Shape), Shape.eraseL (a ++ b) = Shape.eraseL a ++ Shape.eraseL b
+  | [], b => rfl
+  | x :: xs, b => by simp [Shape.eraseL, eraseL_append xs b]
+
+mutual
+theorem same_erase : ∀ (a b : Shape), a = Shape.erase b → Shape.same a b = true
+  | .node la ca, .node lb cb, h => by
+    unfold Shape.erase at h
+    injection h with _ h2
+    unfold Shape.same
+    exact sameL_erase ca cb h2
+theorem sameL_erase : ∀ (a b : List Shape), a = Shape.eraseL b → Shape.sameL a b = true
+  | [], [], _ => rfl
+  | [], _ :: _, h => by simp [Shape.eraseL] at h
+  | _ :: _, [], h => by simp [Shape.eraseL] at h
+  | x :: xs, y :: ys, h => by
+    unfold Shape.eraseL at h
+    injection h with h1 h2
+    unfold Shape.sameL
+    simp [same_erase x y h1, sameL_erase xs ys h2]
+end
+
+theorem shape_def (b : Block) : b.shape = .node [] (Block.shapes b.children) := by
+  cases b; unfold Block.shape; rfl
+
+theorem shapes_append : ∀ (cs : List Block) (b : Block), Block.shapes (cs ++ [b]) = Block.shapes cs ++ [b.shape]
+  | [], b => by simp [Block.shapes]
+  | c :: cs, b => by simp [Block.shapes, shapes_append cs b]
+
+theorem shapes_modifyNth (f : Block → Block) (hf : ∀ c, (f c).shape = c.shape) : ∀ (k : Nat) (cs : List Block),
+    Block.shapes (modifyNth f k cs) = Block.shapes cs
+  | _, [] => by unfold modifyNth; rfl
+  | 0, c :: cs => by simp [modifyNth, Block.shapes, hf]
+  | k + 1, c :: cs => by simp [modifyNth, Block.shapes, shapes_modifyNth f hf k cs]
+
+/-- per live block (innermost first) the shapes of its children so far -/
+def St.shapesStack (s : St) : List (List Shape) := s.frames.map fun b => Block.shapes b.children
+
+/-- the current block got the children `sh`; nothing else changed -/
+def Grow (s s' : St) (sh : List Shape) : Prop :=
+  ∃ top rest, s.shapesStack = top :: rest ∧ s'.shapesStack = (top ++ sh) :: rest
+
+theorem ss_ne_nil (s : St) : s.shapesStack ≠ [] := by simp [St.shapesStack, St.frames]
+
+theorem Grow.refl (s : St) : Grow s s [] := by
+  cases h : s.shapesStack with
+  | nil => exact absurd h (ss_ne_nil s)
+  | cons top rest => exact ⟨top, rest, h, by simp [h]⟩
+
+theorem Grow.of_eq {s s' : St} (h : s'.shapesStack = s.shapesStack) : Grow s s' [] := by
+  obtain ⟨top, rest, h1, h2⟩ := Grow.refl s
+  exact ⟨top, rest, h1, by rw [h, h2]⟩
+
+theorem Grow.trans {a b c : St} {x y : List Shape} (h1 : Grow a b x) (h2 : Grow b c y) : Grow a c (x ++ y) := by
+  obtain ⟨t1, r1, ha, hb⟩ := h1
+  obtain ⟨t2, r2, hb', hc⟩ := h2
+  rw [hb] at hb'
+  injection hb' with e1 e2
+  subst e1; subst e2
+  exact ⟨t1, r1, ha, by rw [hc, List.append_assoc]⟩
+
+theorem ss_mapFrames (f : Block → Block) (s : St) (hf : ∀ b, (f b).children = b.children) :
+    (s.mapFrames f).shapesStack = s.shapesStack := by
+  unfold St.shapesStack; rw [frames_mapFrames]; simp [List.map_map, Function.comp_def, hf]
+
+theorem ss_push (i : Instr) (s : St) : (s.push i).shapesStack = s.shapesStack := by
+  unfold St.push; exact ss_mapFrames _ s (fun _ => rfl)
+theorem ss_incReg (s : St) : s.incReg.shapesStack = s.shapesStack := by
+  unfold St.incReg; exact ss_mapFrames _ s (fun _ => rfl)
+theorem ss_probeLabel (stem : Name) (s : St) : (s.probeLabel stem).2.shapesStack = s.shapesStack := by
+  unfold St.probeLabel; exact ss_mapFrames _ s (fun _ => rfl)
+theorem ss_setReturn (s : St) : s.setReturn.shapesStack = s.shapesStack := by
+  unfold St.setReturn; exact ss_mapFrames _ s (fun _ => rfl)
+theorem ss_enter (s : St) : s.enter.shapesStack = [] :: s.shapesStack := by
+  unfold St.shapesStack; rw [frames_enter]; simp [Block.child, Block.shapes]
+
+theorem ss_pushVia (k : Nat) (i : Instr) (s : St) : (s.pushVia k i).shapesStack = s.shapesStack := by
+  unfold St.pushVia
+  rw [ss_push]
+  unfold St.shapesStack
+  rw [frames_mapCur]
+  cases s.frames with
+  | nil => rfl
+  | cons b0 rest =>
+    simp only [List.map_cons]
+    rw [shapes_modifyNth _ (fun c => by rw [shape_def, shape_def])]
+
+theorem ss_estep {s s' : St} (st : EStep s s') : s'.shapesStack = s.shapesStack := by
+  cases st with
+  | incReg => exact ss_incReg s
+  | emit i _ _ _ _ => exact ss_push i s
+  | incEmit i _ _ _ _ => rw [ss_push]; exact ss_incReg s
+  | addErr k v l o => rfl
+  | declare n v i _ _ _ _ _ =>
+    rw [ss_push]
+    unfold St.registerInner
+    refine Eq.trans (ss_mapFrames _ _ (fun _ => rfl)) ?_
+    unfold St.shapesStack St.insertValue
+    rw [frames_mapCur]
+    cases s.frames <;> rfl
+
+theorem ss_esteps {s s' : St} (h : ESteps s s') : s'.shapesStack = s.shapesStack := by
+  induction h with
+  | refl => rfl
+  | tail _ st ih => rw [ss_estep st, ih]
+
+theorem ss_leave (s : St) (t p : List Shape) (r : List (List Shape)) (h : s.shapesStack = t :: p :: r) :
+    s.leave.2.shapesStack = (p ++ [.node [] t]) :: r := by
+  unfold St.shapesStack St.frames at h
+  unfold St.leave
+  cases hi : s.inner with
+  | nil => rw [hi] at h; simp at h
+  | cons b rest =>
+    rw [hi] at h
+    cases rest with
+    | nil =>
+      simp at h
+      obtain ⟨h1, h2, h3⟩ := h
+      simp [St.shapesStack, St.frames, shapes_append, shape_def, h1, h2, h3]
+    | cons q rest' =>
+      simp at h
+      obtain ⟨h1, h2, h3⟩ := h
+      simp [St.shapesStack, St.frames, shapes_append, shape_def, h1, h2, h3]
+
+/-- a child block: enter, analysis that grows the new block by `sh`, leave -/
+theorem grow_block {s s1 s2 s3 : St} {sh : List Shape} (h1 : s1.shapesStack = [] :: s.shapesStack) (h2 : Grow s1 s2 sh)
+    (h3 : ∀ t p r, s2.shapesStack = t :: p :: r → s3.shapesStack = (p ++ [.node [] t]) :: r) :
+    Grow s s3 [.node [] sh] := by
+  obtain ⟨top, rest, hs, _⟩ := Grow.refl s
+  obtain ⟨t, r, ha, hb⟩ := h2
+  rw [h1, hs] at ha
+  injection ha with e1 e2
+  subst e1; subst e2
+  exact ⟨top, rest, hs, h3 _ _ _ (by simpa using hb)⟩
+
+
+theorem Grow.pre {s s0 s' : St} {sh : List Shape} (h : s0.shapesStack = s.shapesStack) (h2 : Grow s0 s' sh) :
+    Grow s s' sh := by
+  unfold Grow at *; rw [← h]; exact h2
+
+theorem Grow.post {s s0 s' : St} {sh : List Shape} (h2 : Grow s s0 sh) (h : s'.shapesStack = s0.shapesStack) :
+    Grow s s' sh := by
+  unfold Grow at *; rw [h]; exact h2
+
+theorem Grow.cons {s s1 s2 : St} {n : Shape} {sh : List Shape} (h1 : Grow s s1 [n]) (h2 : Grow s1 s2 sh) :
+    Grow s s2 (n :: sh) := h1.trans h2
+
+theorem ss_ifPrologue (g : Globals) (cond : IfCond) (dup isElse : Bool) (labelEnd : Option Name) (s : St) :
+    (ifPrologue g cond dup isElse labelEnd s).2.2.shapesStack = [] :: s.shapesStack := by
+  unfold ifPrologue ifLabels
+  dsimp only
+  have h0 : (if dup then s.addErr .ifElseDuplicated "if-condition".toList 1 0 else s).shapesStack = s.shapesStack := by
+    cases dup <;> rfl
+  generalize (if dup then s.addErr .ifElseDuplicated "if-condition".toList 1 0 else s) = s0 at h0
+  rw [← h0, ← ss_enter s0]
+  have h2 := ss_probeLabel "if_begin".toList s0.enter
+  generalize s0.enter.probeLabel "if_begin".toList = p1 at h2
+  obtain ⟨lb, s2⟩ := p1
+  have h3 := ss_probeLabel "if_else".toList s2
+  generalize s2.probeLabel "if_else".toList = p2 at h3
+  obtain ⟨le, s3⟩ := p2
+  dsimp only at h2 h3 ⊢
+  rw [← h2, ← h3]
+  cases labelEnd with
+  | some l =>
+    dsimp only
+    rw [ss_push, ss_esteps (esteps_ifCondCalc g cond lb le l isElse s3)]
+  | none =>
+    dsimp only
+    have h4 := ss_probeLabel "if_end".toList s3
+    generalize s3.probeLabel "if_end".toList = p3 at h4
+    obtain ⟨ln, s4⟩ := p3
+    dsimp only at h4 ⊢
+    rw [ss_push, ss_esteps (esteps_ifCondCalc g cond lb le ln isElse s4), h4]
+
+theorem ss_ifAfterBody (isElse r : Bool) (lElse lEnd : Name) (s : St) (t p : List Shape) (rs : List (List Shape))
+    (h : s.shapesStack = t :: p :: rs) :
+    (ifAfterBody isElse r lElse lEnd s).2.shapesStack = (p ++ [.node [] t]) :: rs := by
+  unfold ifAfterBody
+  dsimp only
+  apply ss_leave
+  cases isElse <;> cases r <;> simp [ss_push, h]
+
+theorem ss_ifAfterElse (k : Nat) (r : Bool) (lEnd : Name) (s : St) (t p : List Shape) (rs : List (List Shape))
+    (h : s.shapesStack = t :: p :: rs) :
+    (ifAfterElse k r lEnd s).shapesStack = (p ++ [.node [] t]) :: rs := by
+  unfold ifAfterElse
+  dsimp only
+  cases r
+  · simp only [Bool.false_eq_true, if_false]; rw [ss_pushVia]; exact ss_leave s t p rs h
+  · simp only [if_true]; exact ss_leave s t p rs h
+
+theorem ss_ifEpilogue (k : Nat) (labelEnd : Option Name) (lEnd : Name) (s : St) :
+    (ifEpilogue k labelEnd lEnd s).shapesStack = s.shapesStack := by
+  unfold ifEpilogue
+  cases labelEnd
+  · simp [ss_pushVia]
+  · simp
+
+theorem ss_loopPrologue (s : St) : (loopPrologue s).2.2.shapesStack = [] :: s.shapesStack := by
+  unfold loopPrologue
+  dsimp only
+  rw [← ss_enter s]
+  have h2 := ss_probeLabel "loop_begin".toList s.enter
+  generalize s.enter.probeLabel "loop_begin".toList = p1 at h2
+  obtain ⟨lb, s2⟩ := p1
+  have h3 := ss_probeLabel "loop_end".toList s2
+  generalize s2.probeLabel "loop_end".toList = p2 at h3
+  obtain ⟨le, s3⟩ := p2
+  dsimp only at h2 h3 ⊢
+  rw [ss_push, ss_push, h3, h2]
+
+theorem ss_loopEpilogue (r : Bool) (lb le : Name) (s : St) (t p : List Shape) (rs : List (List Shape))
+    (h : s.shapesStack = t :: p :: rs) :
+    (loopEpilogue r lb le s).shapesStack = (p ++ [.node [] t]) :: rs := by
+  unfold loopEpilogue
+  dsimp only
+  apply ss_leave
+  cases r <;> simp [ss_push, h]
+
+theorem ss_nestedReturn (g : Globals) (e : Expr) (s : St) : (nestedReturn g e s).1.shapesStack = s.shapesStack := by
+  obtain ⟨s1, h1, h | ⟨r, h⟩⟩ := esteps_nestedReturn_pre g e s
+  · rw [h]; exact ss_esteps h1
+  · rw [h]; dsimp only; rw [ss_setReturn, ss_push]; exact ss_esteps h1
+
+theorem grow_loopWrap (k : Name → Name → Bool → Bool → Bool → St → St × Bool) (sh : List Shape)
+    (hk : ∀ lb le rc bc cc s, Grow s (k lb le rc bc cc s).1 sh) (s : St) : Grow s (loopWrap k s) [.node [] sh] := by
+  unfold loopWrap
+  dsimp only
+  have h1 := ss_loopPrologue s
+  generalize loopPrologue s = p at h1
+  obtain ⟨lb, le, s1⟩ := p
+  dsimp only at h1 ⊢
+  have h2 := hk lb le false false false s1
+  generalize k lb le false false false s1 = q at h2
+  obtain ⟨s2, r⟩ := q
+  exact grow_block h1 h2 (ss_loopEpilogue r lb le s2)
+
+theorem erase_node (l : List Name) (cs : List Shape) : Shape.erase (.node l cs) = .node [] (Shape.eraseL cs) := by
+  unfold Shape.erase; rfl
+theorem eraseL_cons (x : Shape) (xs : List Shape) : Shape.eraseL (x :: xs) = x.erase :: Shape.eraseL xs := by
+  conv => lhs; unfold Shape.eraseL
+theorem eraseL_nil : Shape.eraseL [] = [] := by unfold Shape.eraseL; rfl
+
+mutual
+theorem grow_ifCondition (g : Globals) : ∀ (i : IfStmt) (le : Option Name) (ll : Option (Name × Name)) (s : St),
+    IfStmt.loopOK ll.isSome i = true → Grow s (ifCondition g i le ll s) (Shape.eraseL (IfStmt.shapes i))
+  | .mk cond body els elif, labelEnd, labelLoop, s, hok => by
+    unfold IfStmt.loopOK at hok
+    simp only [Bool.and_eq_true] at hok
+    obtain ⟨⟨hok1, hok2⟩, hok3⟩ := hok
+    unfold ifCondition IfStmt.shapes
+    dsimp only
+    have h1 := ss_ifPrologue g cond (els.isSome && elif.isSome) (els.isSome || elif.isSome) labelEnd s
+    generalize ifPrologue g cond (els.isSome && elif.isSome) (els.isSome || elif.isSome) labelEnd s = p at h1
+    obtain ⟨lElse, lEnd, s1⟩ := p
+    dsimp only at h1 ⊢
+    have h2 := grow_ifBodies g body lEnd labelLoop s1 hok1
+    generalize ifBodies g body lEnd labelLoop s1 = q at h2
+    obtain ⟨s2, r⟩ := q
+    dsimp only at h2 ⊢
+    have h3 := grow_block h1 h2 (ss_ifAfterBody (els.isSome || elif.isSome) r lElse lEnd s2)
+    generalize ifAfterBody (els.isSome || elif.isSome) r lElse lEnd s2 = q3 at h3
+    obtain ⟨k, s3⟩ := q3
+    dsimp only at h3 ⊢
+    refine Grow.post ?_ (ss_ifEpilogue k labelEnd lEnd _)
+    rw [eraseL_cons, erase_node]
+    refine Grow.cons h3 ?_
+    cases els with
+    | some eb =>
+      dsimp only
+      have h4 := grow_ifBodies g eb lEnd labelLoop s3.enter hok2
+      generalize ifBodies g eb lEnd labelLoop s3.enter = q4 at h4
+      obtain ⟨s4, r4⟩ := q4
+      rw [eraseL_cons, erase_node, eraseL_nil]
+      exact grow_block (ss_enter s3) h4 (ss_ifAfterElse k r4 lEnd s4)
+    | none =>
+      cases elif with
+      | some ei => exact grow_ifCondition g ei (some lEnd) labelLoop s3 hok3
+      | none => dsimp only; rw [eraseL_nil]; exact Grow.refl _
+theorem grow_ifBodies (g : Globals) : ∀ (b : IfBodies) (lEnd : Name) (ll : Option (Name × Name)) (s : St),
+    IfBodies.loopOK ll.isSome b = true → Grow s (ifBodies g b lEnd ll s).1 (Shape.eraseL (IfBodies.shapes b))
+  | .ifb l, lEnd, ll, s, hok => by
+    unfold IfBodies.loopOK at hok
+    unfold ifBodies IfBodies.shapes; exact grow_ifBody g l lEnd ll false s hok
+  | .loopb l, lEnd, some (lb, le), s, hok => by
+    unfold IfBodies.loopOK at hok
+    simp only [Bool.and_eq_true] at hok
+    unfold ifBodies IfBodies.shapes; exact grow_ifLoopBody g l lEnd lb le false false false s hok.2
+  | .loopb _, _, none, s, hok => by
+    unfold IfBodies.loopOK at hok
+    simp at hok
+theorem grow_ifBody (g : Globals) : ∀ (l : List IfBodyStmt) (lEnd : Name) (ll : Option (Name × Name)) (rc : Bool) (s : St),
+    IfBodyStmt.loopOKL ll.isSome l = true → Grow s (ifBody g l lEnd ll rc s).1 (Shape.eraseL (IfBodyStmt.shapesL l))
+  | [], _, _, _, s, _ => by unfold ifBody IfBodyStmt.shapesL; rw [eraseL_nil]; exact Grow.refl _
+  | st :: tl, lEnd, ll, rc, s, hok => by
+    unfold ifBody
+    dsimp only
+    have h0 := ss_esteps (esteps_forbidden rc false false s)
+    generalize forbidden rc false false s = s0 at h0
+    refine Grow.pre h0 ?_
+    cases st with
+    | letB b =>
+      simp only [IfBodyStmt.shapesL, IfBodyStmt.loopOKL] at hok ⊢
+      exact Grow.pre (ss_esteps (esteps_letBinding g b s0)) (grow_ifBody g tl lEnd ll rc _ hok)
+    | bind b =>
+      simp only [IfBodyStmt.shapesL, IfBodyStmt.loopOKL] at hok ⊢
+      exact Grow.pre (ss_esteps (esteps_binding g b s0)) (grow_ifBody g tl lEnd ll rc _ hok)
+    | call c =>
+      simp only [IfBodyStmt.shapesL, IfBodyStmt.loopOKL] at hok ⊢
+      exact Grow.pre (ss_esteps (esteps_callStmt g c s0)) (grow_ifBody g tl lEnd ll rc _ hok)
+    | ifS i =>
+      simp only [IfBodyStmt.shapesL, IfBodyStmt.loopOKL, Bool.and_eq_true] at hok ⊢
+      rw [eraseL_append]
+      exact (grow_ifCondition g i (some lEnd) ll s0 hok.1).trans (grow_ifBody g tl lEnd ll rc _ hok.2)
+    | loop b =>
+      simp only [IfBodyStmt.shapesL, IfBodyStmt.loopOKL, Bool.and_eq_true] at hok ⊢
+      rw [eraseL_cons, erase_node]
+      exact Grow.cons (grow_loopWrap _ _ (fun lb le rc bc cc s => grow_loopBody g b lb le rc bc cc s hok.1) s0)
+        (grow_ifBody g tl lEnd ll rc _ hok.2)
+    | ret e =>
+      simp only [IfBodyStmt.shapesL, IfBodyStmt.loopOKL] at hok ⊢
+      have h1 := ss_nestedReturn g e s0
+      generalize nestedReturn g e s0 = q at h1
+      obtain ⟨s1, r⟩ := q
+      exact Grow.pre h1 (grow_ifBody g tl lEnd ll (rc || r) s1 hok)
+theorem grow_ifLoopBody (g : Globals) : ∀ (l : List IfLoopStmt) (lEnd lb le : Name) (rc bc cc : Bool) (s : St),
+    IfLoopStmt.loopOKL l = true → Grow s (ifLoopBody g l lEnd lb le rc bc cc s).1 (Shape.eraseL (IfLoopStmt.shapesL l))
+  | [], _, _, _, _, _, _, s, _ => by unfold ifLoopBody IfLoopStmt.shapesL; rw [eraseL_nil]; exact Grow.refl _
+  | st :: tl, lEnd, lb, le, rc, bc, cc, s, hok => by
+    unfold ifLoopBody
+    dsimp only
+    have h0 := ss_esteps (esteps_forbidden rc bc cc s)
+    generalize forbidden rc bc cc s = s0 at h0
+    refine Grow.pre h0 ?_
+    cases st with
+    | letB b =>
+      simp only [IfLoopStmt.shapesL, IfLoopStmt.loopOKL] at hok ⊢
+      exact Grow.pre (ss_esteps (esteps_letBinding g b s0)) (grow_ifLoopBody g tl lEnd lb le rc bc cc _ hok)
+    | bind b =>
+      simp only [IfLoopStmt.shapesL, IfLoopStmt.loopOKL] at hok ⊢
+      exact Grow.pre (ss_esteps (esteps_binding g b s0)) (grow_ifLoopBody g tl lEnd lb le rc bc cc _ hok)
+    | call c =>
+      simp only [IfLoopStmt.shapesL, IfLoopStmt.loopOKL] at hok ⊢
+      exact Grow.pre (ss_esteps (esteps_callStmt g c s0)) (grow_ifLoopBody g tl lEnd lb le rc bc cc _ hok)
+    | ifS i =>
+      simp only [IfLoopStmt.shapesL, IfLoopStmt.loopOKL, Bool.and_eq_true] at hok ⊢
+      rw [eraseL_append]
+      exact (grow_ifCondition g i (some lEnd) (some (lb, le)) s0 hok.1).trans (grow_ifLoopBody g tl lEnd lb le rc bc cc _ hok.2)
+    | loop b =>
+      simp only [IfLoopStmt.shapesL, IfLoopStmt.loopOKL, Bool.and_eq_true] at hok ⊢
+      rw [eraseL_cons, erase_node]
+      exact Grow.cons (grow_loopWrap _ _ (fun lb le rc bc cc s => grow_loopBody g b lb le rc bc cc s hok.1) s0)
+        (grow_ifLoopBody g tl lEnd lb le rc bc cc _ hok.2)
+    | ret e =>
+      simp only [IfLoopStmt.shapesL, IfLoopStmt.loopOKL] at hok ⊢
+      have h1 := ss_nestedReturn g e s0
+      generalize nestedReturn g e s0 = q at h1
+      obtain ⟨s1, r⟩ := q
+      exact Grow.pre h1 (grow_ifLoopBody g tl lEnd lb le (rc || r) bc cc s1 hok)
+    | cont =>
+      simp only [IfLoopStmt.shapesL, IfLoopStmt.loopOKL] at hok ⊢
+      exact Grow.pre (ss_push _ s0) (grow_ifLoopBody g tl lEnd lb le rc bc true _ hok)
+    | brk =>
+      simp only [IfLoopStmt.shapesL, IfLoopStmt.loopOKL] at hok ⊢
+      exact Grow.pre (ss_push _ s0) (grow_ifLoopBody g tl lEnd lb le rc true cc _ hok)
+theorem grow_loopBody (g : Globals) : ∀ (l : List LoopStmt) (lb le : Name) (rc bc cc : Bool) (s : St),
+    LoopStmt.loopOKL l = true → Grow s (loopBody g l lb le rc bc cc s).1 (Shape.eraseL (LoopStmt.shapesL l))
+  | [], _, _, _, _, _, s, _ => by unfold loopBody LoopStmt.shapesL; rw [eraseL_nil]; exact Grow.refl _
+  | st :: tl, lb, le, rc, bc, cc, s, hok => by
+    unfold loopBody
+    dsimp only
+    have h0 := ss_esteps (esteps_forbidden rc bc cc s)
+    generalize forbidden rc bc cc s = s0 at h0
+    refine Grow.pre h0 ?_
+    cases st with
+    | letB b =>
+      simp only [LoopStmt.shapesL, LoopStmt.loopOKL] at hok ⊢
+      exact Grow.pre (ss_esteps (esteps_letBinding g b s0)) (grow_loopBody g tl lb le rc bc cc _ hok)
+    | bind b =>
+      simp only [LoopStmt.shapesL, LoopStmt.loopOKL] at hok ⊢
+      exact Grow.pre (ss_esteps (esteps_binding g b s0)) (grow_loopBody g tl lb le rc bc cc _ hok)
+    | call c =>
+      simp only [LoopStmt.shapesL, LoopStmt.loopOKL] at hok ⊢
+      exact Grow.pre (ss_esteps (esteps_callStmt g c s0)) (grow_loopBody g tl lb le rc bc cc _ hok)
+    | ifS i =>
+      simp only [LoopStmt.shapesL, LoopStmt.loopOKL, Bool.and_eq_true] at hok ⊢
+      rw [eraseL_append]
+      exact (grow_ifCondition g i none (some (lb, le)) s0 hok.1).trans (grow_loopBody g tl lb le rc bc cc _ hok.2)
+    | loop b =>
+      simp only [LoopStmt.shapesL, LoopStmt.loopOKL, Bool.and_eq_true] at hok ⊢
+      rw [eraseL_cons, erase_node]
+      exact Grow.cons (grow_loopWrap _ _ (fun lb le rc bc cc s => grow_loopBody g b lb le rc bc cc s hok.1) s0)
+        (grow_loopBody g tl lb le rc bc cc _ hok.2)
+    | ret e =>
+      simp only [LoopStmt.shapesL, LoopStmt.loopOKL] at hok ⊢
+      have h1 := ss_nestedReturn g e s0
+      generalize nestedReturn g e s0 = q at h1
+      obtain ⟨s1, r⟩ := q
+      exact Grow.pre h1 (grow_loopBody g tl lb le (rc || r) bc cc s1 hok)
+    | brk =>
+      simp only [LoopStmt.shapesL, LoopStmt.loopOKL] at hok ⊢
+      exact Grow.pre (ss_push _ s0) (grow_loopBody g tl lb le rc true cc _ hok)
+    | cont =>
+      simp only [LoopStmt.shapesL, LoopStmt.loopOKL] at hok ⊢
+      exact Grow.pre (ss_push _ s0) (grow_loopBody g tl lb le rc bc true _ hok)
+end
+
+
+theorem grow_bodyStmts (g : Globals) (resTy : Ty) : ∀ (l : List BodyStmt) (rc : Bool) (s : St),
+    BodyStmt.loopOKL l = true → Grow s (bodyStmts g resTy l rc s).1 (Shape.eraseL (BodyStmt.shapesL l))
+  | [], _, s, _ => by unfold bodyStmts BodyStmt.shapesL; rw [eraseL_nil]; exact Grow.refl _
+  | st :: tl, rc, s, hok => by
+    unfold bodyStmts
+    dsimp only
+    have h0 := ss_esteps (esteps_forbidden rc false false s)
+    generalize forbidden rc false false s = s0 at h0
+    refine Grow.pre h0 ?_
+    cases st with
+    | letB b =>
+      simp only [BodyStmt.shapesL, BodyStmt.loopOKL] at hok ⊢
+      exact Grow.pre (ss_esteps (esteps_letBinding g b s0)) (grow_bodyStmts g resTy tl rc _ hok)
+    | bind b =>
+      simp only [BodyStmt.shapesL, BodyStmt.loopOKL] at hok ⊢
+      exact Grow.pre (ss_esteps (esteps_binding g b s0)) (grow_bodyStmts g resTy tl rc _ hok)
+    | call c =>
+      simp only [BodyStmt.shapesL, BodyStmt.loopOKL] at hok ⊢
+      exact Grow.pre (ss_esteps (esteps_callStmt g c s0)) (grow_bodyStmts g resTy tl rc _ hok)
+    | ifS i =>
+      simp only [BodyStmt.shapesL, BodyStmt.loopOKL, Bool.and_eq_true] at hok ⊢
+      rw [eraseL_append]
+      exact (grow_ifCondition g i none none s0 hok.1).trans (grow_bodyStmts g resTy tl rc _ hok.2)
+    | loop b =>
+      simp only [BodyStmt.shapesL, BodyStmt.loopOKL, Bool.and_eq_true] at hok ⊢
+      rw [eraseL_cons, erase_node]
+      exact Grow.cons (grow_loopWrap _ _ (fun lb le rc bc cc s => grow_loopBody g b lb le rc bc cc s hok.1) s0)
+        (grow_bodyStmts g resTy tl rc _ hok.2)
+    | expr e =>
+      simp only [BodyStmt.shapesL, BodyStmt.loopOKL] at hok ⊢
+      have h1 := ss_esteps (esteps_fnReturn g resTy e rc s0)
+      generalize fnReturn g resTy e rc s0 = q at h1
+      obtain ⟨s1, r⟩ := q
+      exact Grow.pre h1 (grow_bodyStmts g resTy tl r s1 hok)
+    | ret e =>
+      simp only [BodyStmt.shapesL, BodyStmt.loopOKL] at hok ⊢
+      have h1 := ss_esteps (esteps_fnReturn g resTy e rc s0)
+      generalize fnReturn g resTy e rc s0 = q at h1
+      obtain ⟨s1, r⟩ := q
+      exact Grow.pre h1 (grow_bodyStmts g resTy tl r s1 hok)
+
+/-- the block tree of one function has the source nesting of the function -/
+theorem C18_shape_function (g : Globals) (f : FnDecl) (hok : BodyStmt.loopOKL f.body = true) :
+    (functionBody g f).root.shape.same f.sourceShape = true := by
+  apply same_erase
+  unfold FnDecl.sourceShape
+  rw [erase_node, shape_def]
+  congr 1
+  have h0 : (initParams f.params St.init).shapesStack = [[]] := by
+    rw [ss_esteps (esteps_initParams f.params St.init paramInv_init)]
+    simp [St.shapesStack, St.frames, St.init, Block.fresh]; unfold Block.shapes; rfl
+  have h1 := grow_bodyStmts g f.result.toTy f.body false (initParams f.params St.init) hok
+  have h2 : (functionBody g f).shapesStack = (bodyStmts g f.result.toTy f.body false (initParams f.params St.init)).1.shapesStack := by
+    unfold functionBody
+    dsimp only
+    generalize bodyStmts g f.result.toTy f.body false (initParams f.params St.init) = q
+    obtain ⟨s1, r⟩ := q
+    cases r <;> rfl
+  obtain ⟨top, rest, ha, hb⟩ := h1
+  rw [h0] at ha
+  injection ha with e1 e2
+  subst e1; subst e2
+  rw [← h2] at hb
+  unfold St.shapesStack St.frames at hb
+  cases hi : (functionBody g f).inner with
+  | nil => rw [hi] at hb; simpa using hb
+  | cons b rest => rw [hi] at hb; simp at hb
+
+/-- **C18 (tree shape and subsequence)** — for every program of the domain (`LoopOKB`), every function's block tree has
+exactly the nesting of its source, one root per function, and every block's instruction stack is a subsequence of its
+parent's.  (`linksOk` — the parent back-references — is a property of the `Rc` representation, checked by the
+correspondence; the model's tree is parent-linked by construction.) -/
+theorem C18 (p : Program) (hok : LoopOKB p = true) : P_C18_shape p (run p) true = [] := by
+  unfold P_C18_shape
+  have hr : (run p).roots = p.fns.map fun f => (functionBody (pass2 p (pass1 p GState.init)).globals f).root := by
+    unfold run; simp [List.map_map, Function.comp_def]
+  rw [hr]
+  simp only [List.length_map, beq_self_eq_true, if_true, List.nil_append, List.append_eq_nil_iff, List.flatMap_eq_nil_iff]
+  intro x hx
+  obtain ⟨⟨f, b⟩, i⟩ := x
+  have hm := List.fst_mem_of_mem_zipIdx hx
+  rw [List.zip_map_right] at hm
+  simp only [List.mem_map] at hm
+  obtain ⟨⟨f', f''⟩, hz, he⟩ := hm
+  have hff : f' = f'' := by
+    have := List.of_mem_zip hz
+    rw [List.zip_eq_zipWith] at hz
+    simp [List.zipWith_self] at hz
+    exact hz.2.symm ▸ rfl
+  simp only [Prod.map, id] at he
+  injection he with e1 e2
+  subst e1; subst e2; subst hff
+  have hmem : f' ∈ p.fnDecls := by rw [← fns_eq_fnDecls]; exact (List.of_mem_zip hz).1
+  unfold LoopOKB at hok
+  rw [List.all_eq_true] at hok
+  simp [C18_shape_function _ f' (hok f' hmem), C18_subseq_function]
+
 end SemVerif
